@@ -146,6 +146,17 @@ def run_cvc5(text, timeout_s=None):
 def prove(hyps, goal, timeout_ms=None, use_cvc5=True, both=False):
     """Is (/\\ hyps) => goal valid?  status: 'unsat' (discharged) | 'sat' (refuted; model attached) | 'unknown'."""
     t0 = time.time()
+    if is_false(simplify(goal)):
+        # a concrete check failed on this path (typestate / frame obligations): refuted unless the path itself is infeasible
+        s0 = Solver()
+        s0.set('timeout', 5000)
+        for h in hyps:
+            s0.add(h)
+        r0 = s0.check()
+        if r0 == unsat:
+            return Result('unsat', 'z3-%s' % z3.get_version_string(), time.time() - t0, detail='path infeasible')
+        return Result('sat', 'z3-%s' % z3.get_version_string(), time.time() - t0,
+                      model=(s0.model() if r0 == sat else None), detail='the obligation is false on a path that was not shown infeasible')
     s = Solver()
     s.set('timeout', timeout_ms or Z3_TIMEOUT_MS)
     for h in hyps:
